@@ -123,6 +123,7 @@ REFACTORS = [
     ('r_p_locks_handwritten_spin', ['C01', 'C08', 'C02'], [(P, '  SpinWithBackoff(\n      [](std::atomic_uint64_t *lock) -> bool {\n        auto cur = lock->load(kRelaxed);\n        return (cur & kXLock) == kNoLocks\n               && lock->compare_exchange_weak(cur, cur + kSLock, kAcquire, kRelaxed);\n      },\n      &lock_);\n  return SGuard{this};', '  while (true) {\n    auto cur = lock_.load(kRelaxed);\n    if ((cur & kXLock) == kNoLocks && lock_.compare_exchange_weak(cur, cur + kSLock, kAcquire, kRelaxed)) break;\n    CPP_UTILITY_SPINLOCK_HINT\n  }\n  return SGuard{this};', 1)], 'hand-written spin instead of the helper'),
     ('r_e_sort_reverse_iter', ['C16', 'C20'], [(E, 'std::sort(protected_epochs.begin(), protected_epochs.end(), std::greater<size_t>{});', 'std::sort(protected_epochs.rbegin(), protected_epochs.rend());', 1)], 'descending sort through reverse iterators'),
     ('r_z_auto_dist', ['C19'], [(ZH, 'thread_local std::uniform_real_distribution<double> uniform_dist{0.0, 1.0};  // NOLINT', 'std::uniform_real_distribution<double> uniform_dist{0.0, 1.0};', 1)], 'automatic distribution object'),
+    ('r_p_upgrade_keeps_six', ['C01', 'C10', 'C02'], [(P, 'lock->compare_exchange_weak(cur, kXLock, kAcquire, kRelaxed)', 'lock->compare_exchange_weak(cur, cur | kXLock, kAcquire, kRelaxed)', 1)], 'non-canonical encoding: an upgraded X holder keeps the SIX bit set (every admission test and both X exits still behave the same)'),
 ]
 
 
@@ -141,7 +142,7 @@ def patch_corpora():
             m = json.load(open(mp))
             props_ = m.get('detected_by') or []
             if props_:
-                muts.append(('seed_' + sid, props_, 'C', [('@patch', pp)], 'seeded change %s (breaks %s)' % (sid, m.get('property'))))
+                muts.append(('seed_' + sid, props_, '', [('@patch', pp)], 'seeded change %s (breaks %s)' % (sid, m.get('property'))))
     rd = os.path.join(VERIF_DIR, 'corpus', 'refactors')
     for rid in sorted(os.listdir(rd)) if os.path.isdir(rd) else []:
         pp = os.path.join(rd, rid, 'patch.diff')
